@@ -74,3 +74,105 @@ Definition verdict_conc (c : ccase) : N :=
   (if spec then 0 else 2)%N.
 Definition run_conc (cs : list ccase) : list (N * N) :=
   filter (fun p => negb (snd p =? 0)%N) (map (fun c => (c_id c, verdict_conc c)) cs).
+
+(* System-call trace of ONE invocation running alone, projected to
+     0 = .dud/lock created with O_EXCL, 1 = .dud/lock unlinked,
+     2 = any other mutating call below the project, its cache or the remote
+   (by the dud process, a stage command or rclone).
+   correspondence: the lock events are the Take/Drop effects of the model's process;
+   property (on the implementation): every change happens while the lock is held, the lock is
+   taken only when not held, released only when held, and not held at the end. *)
+Record ltcase := mkLT {
+  lt_id : N; lt_desc : N; lt_fails : bool; lt_ok : bool; lt_lock_after : bool; lt_trace : list N }.
+
+Fixpoint drive_eff (fuel : nat) (k : release_kind) (fails : bool) (g : global) (acc : list N) : list N :=
+  match fuel with
+  | O => rev acc
+  | S f => match first_step k (try_labels fails) g with
+           | Some g' =>
+               let acc' := if negb (lockfile g) && lockfile g' then 0%N :: acc
+                           else if lockfile g && negb (lockfile g') then 1%N :: acc else acc in
+               drive_eff f k fails g' acc'
+           | None => rev acc
+           end
+  end.
+
+Definition model_effects (d : N) (fails : bool) : list N :=
+  drive_eff 40 ReleaseSamePath fails (mkGlobal false None [start_proc (desc_of d, true)]) [].
+
+Fixpoint trace_ok (held : bool) (t : list N) : bool :=
+  match t with
+  | [] => negb held
+  | e :: r =>
+      if (e =? 0)%N then negb held && trace_ok true r
+      else if (e =? 1)%N then held && trace_ok false r
+      else held && trace_ok held r
+  end.
+
+Definition lock_events (t : list N) : list N := filter (fun e => (e <? 2)%N) t.
+
+Fixpoint list_N_eqb (a b : list N) : bool :=
+  match a, b with
+  | [], [] => true
+  | x :: a', y :: b' => (x =? y)%N && list_N_eqb a' b'
+  | _, _ => false
+  end.
+
+Definition verdict_ltrace (c : ltcase) : N :=
+  let corr := list_N_eqb (lock_events (lt_trace c)) (model_effects (lt_desc c) (lt_fails c))
+              && Bool.eqb (lt_ok c) (negb (lt_fails c)) in
+  let spec := trace_ok false (lt_trace c) && negb (lt_lock_after c) in
+  ((if corr then 0 else 1) + (if spec then 0 else 2))%N.
+
+Definition run_ltrace (cs : list ltcase) : list (N * N) :=
+  filter (fun p => negb (snd p =? 0)%N) (map (fun c => (lt_id c, verdict_ltrace c)) cs).
+
+(* sanity: what the model predicts *)
+Example effects_prepare : model_effects 0 false = [0; 1]%N. Proof. reflexivity. Qed.
+Example effects_pull : model_effects 2 false = [0; 1; 0; 1]%N. Proof. reflexivity. Qed.
+Example effects_fail : model_effects 0 true = [0; 1]%N. Proof. reflexivity. Qed.
+Example effects_nolock : model_effects 3 false = []. Proof. reflexivity. Qed.
+Example trace_ok_pull : trace_ok false [0; 2; 1; 0; 2; 1]%N = true. Proof. reflexivity. Qed.
+Example trace_bad_pull : trace_ok false [0; 2; 1; 2]%N = false. Proof. reflexivity. Qed.
+
+(* The model's own trace of one process running alone, with a 2 for the work of the subcommand
+   (a step taken from pc = Body): for EVERY descriptor, starting directory and outcome it
+   satisfies trace_ok, i.e. the executable statement evaluated on the implementation's traces is
+   what the model guarantees. *)
+Fixpoint drive_trace (fuel : nat) (k : release_kind) (fails : bool) (g : global) (acc : list N) : list N :=
+  match fuel with
+  | O => rev acc
+  | S f => match first_step k (try_labels fails) g with
+           | Some g' =>
+               let work := match procs g with
+                           | [p] => match p_pc p with Body => true | _ => false end
+                           | _ => false
+                           end in
+               let acc1 := if work && locks (match procs g with [p] => p_desc p | _ => nolock_desc end)
+                           then 2%N :: acc else acc in
+               let acc2 := if negb (lockfile g) && lockfile g' then 0%N :: acc1
+                           else if lockfile g && negb (lockfile g') then 1%N :: acc1 else acc1 in
+               drive_trace f k fails g' acc2
+           | None => rev acc
+           end
+  end.
+
+Definition model_trace (d : desc) (cwd_root fails : bool) : list N :=
+  drive_trace 40 ReleaseSamePath fails (mkGlobal false None [start_proc (d, cwd_root)]) [].
+
+Lemma model_trace_ok : forall d cwd_root fails, trace_ok false (model_trace d cwd_root fails) = true.
+Proof.
+  intros [l c r b] cwd_root fails.
+  destruct l, c, r, b, cwd_root, fails; vm_compute; reflexivity.
+Qed.
+
+Lemma model_trace_lock_events : forall d cwd_root fails,
+  lock_events (model_trace d cwd_root fails) =
+  drive_eff 40 ReleaseSamePath fails (mkGlobal false None [start_proc (d, cwd_root)]) [].
+Proof.
+  intros [l c r b] cwd_root fails.
+  destruct l, c, r, b, cwd_root, fails; vm_compute; reflexivity.
+Qed.
+
+Example model_trace_pull : model_trace pull_desc false false = [0; 2; 1; 0; 2; 1]%N.
+Proof. reflexivity. Qed.
